@@ -89,14 +89,15 @@ def custom(ctx):
 
 SPEC = {
     "id": "C08",
-    "gens": ["PanicSites"],
-    "lean_modules": ["RsslVerif.Thm.C08"],
+    "gens": ["PanicSites", "ArithSites"],
+    "lean_modules": ["RsslVerif.Thm.C08", "RsslVerif.Model.DefinedLoc", "RsslVerif.Lemmas.DefinedLoc", "RsslVerif.Lemmas.ArithClasses"],
     "theorems": [T + n for n in [
         "panic_sites_classified", "parser_loops_as_modelled", "list_uses_reviewed", "parse_list_progress",
         "parse_list_fuel_irrelevant", "parse_multiple_progress", "parse_multiple_diverges_without_progress",
         "parse_optional_total", "root_loop_progress", "lex_shape_as_modelled", "lex_progress",
         "cond_shape_as_modelled", "cond_chain_total", "cond_depth_bounded", "macro_guard_as_modelled",
-        "stage_errors_rendered"]],
+        "stage_errors_rendered", "arith_sites_classified", "defined_shape_as_modelled", "defined_location_safe",
+        "defined_location_needs_plain_rescan", "defined_indices_in_range", "scan_output_has_no_concat"]],
     "harness": "c08",
     "custom": custom,
     "finding_key": finding_key,
